@@ -113,14 +113,16 @@ def hemisphere_predicates(repo, modname="molgri.space.utils"):
         if len(loops) != 1:
             continue
         pol = None
+        # somewhere in the loop the prefix before the current position is tested for being zero ...
+        zero_prefix = any(isinstance(c, ast.Call) and src(c.func).split(".")[-1] in ("allclose", "isclose", "all", "any", "count_nonzero")
+                          for c in ast.walk(loops[0]))
+        # ... and the sign of the current component decides: the comparison whose branch returns True gives the polarity
         for iff in ast.walk(loops[0]):
             if not isinstance(iff, ast.If):
                 continue
             cmps = [c for c in ast.walk(iff.test) if isinstance(c, ast.Compare) and len(c.ops) == 1 and isinstance(c.ops[0], (ast.Gt, ast.Lt)) and
                     isinstance(c.comparators[0], ast.Constant) and c.comparators[0].value == 0]
-            zero_prefix = any(isinstance(c, ast.Call) and src(c.func).split(".")[-1] in ("allclose", "isclose", "all", "any", "count_nonzero")
-                              for c in ast.walk(iff.test))
-            rets = [r for r in ast.walk(iff) if isinstance(r, ast.Return) and isinstance(r.value, ast.Constant) and r.value.value is True]
+            rets = [r for b in iff.body for r in ast.walk(b) if isinstance(r, ast.Return) and isinstance(r.value, ast.Constant) and r.value.value is True]
             if len(cmps) == 1 and zero_prefix and rets:
                 pol = 1 if isinstance(cmps[0].ops[0], ast.Gt) else -1
         last = fi.node.body[-1]
